@@ -20,6 +20,9 @@
   `widening_mul`), Div (C03: `%`), Shift (C05), BitOps/Bits (C06/C07: `leading_zeros`, `bits`) and
   Cmp (C09).  Signed integers are their two's-complement patterns; `to_bits`/`from_bits` are the
   identity on patterns, exactly as in the Rust (a `BInt` is a wrapped `BUint`).
+  `Model/RandomD.lean` is the DIGIT-LEVEL model of the same functions (calling those digit-level
+  implementations); `Lemmas/RandomD.lean` proves it returns exactly what this file's functions
+  return on the values, so everything proved about this file holds for the digit-level code.
 
   Target endianness: the model is for a little-endian target (`to_le` is the identity and the
   in-memory byte view of `[Digit; N]` is the little-endian byte string of the value).
